@@ -320,8 +320,23 @@ Theorem C10_le_max_packet_size : forall plan hdr pnLen plen udpMin maxSize lf pl
 Proof. exact t_C10_le_max_packet_size. Qed.
 Print Assumptions C10_le_max_packet_size.
 
-(** STILL REFUTED in general (open findings .../size-max/udp-min: Firefox's 1357-byte
-    datagrams are deliberate mimicry; .../size-max/builder: a builder output that does not
+(** The open finding .../size-max/udp-min, precisely (Firefox parrots: UDPDatagramMinSize 1357
+    on a connection whose maximum packet size is 1280).  With PacketSize 0 the QUIC packet and
+    its Length field do not depend on UDPDatagramMinSize; the DATAGRAM exceeds a maximum packet
+    size that the packet respects exactly when the UDP minimum (capped by the buffer) does, and
+    it then has exactly that size: the excess is zero padding behind the packet, but it is on
+    the wire as a larger UDP datagram -- the property's "none exceeds the connection's current
+    maximum packet size" speaks of datagrams and is violated by it (witness below). *)
+Theorem C10_udp_min_excess : forall cl hdr pnLen plen udpMin maxSize,
+  hdr + plen + 16 <= 1452 -> hdr + plen + 16 <= maxSize ->
+  let mn := Z.min (if udpMin =? 0 then 1200 else udpMin) 1452 in
+  exists dl, appendInitial (cl, 0) hdr pnLen plen udpMin = AppOk (pnLen + plen + 16) (hdr + plen + 16) dl false /\
+             (maxSize < dl <-> maxSize < mn) /\ (maxSize < dl -> dl = mn).
+Proof. exact t_C10_udp_min_excess. Qed.
+Print Assumptions C10_udp_min_excess.
+
+(** STILL REFUTED in general (open findings .../size-max/udp-min: Firefox_116A's 554-byte
+    packet in a 1357-byte datagram on a 1280 connection; .../size-max/builder: a builder output that does not
     fit is not refused). *)
 Theorem C10_le_max_packet_size_refuted :
   (exists lf, appendInitial (0, 0) 22 1 516 1357 = AppOk lf 554 1357 false) /\
